@@ -232,6 +232,8 @@ int vp_case(Choice& c, Report& rep) {
   for (int i = 0; i < N; i++) {
     float* ol = yl.data() + (size_t)i * fs * g.ch; float* oc = yc.data() + (size_t)i * fs * g.ch; float* op = yp.data() + (size_t)i * fs * g.ch; float* orf = yr.data() + (size_t)i * fs * g.ch;
     HeapBuf<uint8_t> data(pk[i].size()); memcpy(data.p, pk[i].data(), pk[i].size());
+    // NaN-poison the lossy decoder's output region: "returns the requested duration" means every requested sample is written
+    for (int k = 0; k < fs * g.ch; k++) ol[k] = std::nanf("");
     int n = opus_decode_float(clean.p, data.p, (opus_int32)pk[i].size(), oc, fs, 0);
     VP_REQUIRE(n == fs, "c09:clean-decode", "loss-free decoder returned %d", n);
     rep.count();
@@ -239,6 +241,7 @@ int vp_case(Choice& c, Report& rep) {
       n = opus_decode_float(lossy.p, data.p, (opus_int32)pk[i].size(), ol, fs, 0);
       (void)ref_opus_decode_float(rlossy.p, data.p, (opus_int32)pk[i].size(), orf, fs, 0);
       VP_REQUIRE(n == fs, "c09:received-decode", "decoder returned %d for a received packet after losses", n);
+      VP_REQUIRE(all_finite(ol, (size_t)fs * g.ch), "c09:samples-unwritten", "received packet %d: decoder returned %d but left samples unwritten / non-finite", i, n);
       opus_uint32 dr = 0; opus_decoder_ctl(lossy.p, OPUS_GET_FINAL_RANGE(&dr));
       VP_REQUIRE(dr == erange[i], "c09:final-range-after-loss", "packet %d received after %d lost: decoder final range %08x, encoder %08x", i, run, dr, erange[i]);
       if (family == 2) { n = opus_decode_float(plconly.p, data.p, (opus_int32)pk[i].size(), op, fs, 0); VP_REQUIRE(n == fs, "c09:received-decode", "decoder returned %d", n); }
@@ -274,8 +277,7 @@ int vp_case(Choice& c, Report& rep) {
     // FEC call shape with a larger-than-packet frame_size: two consecutive losses recovered by one call on the packet after them
     if (family == 0 && shape == 2 && g.fec && !deferred && i + 2 < N && lost[i + 1] && !lost[i + 2] && rfc::toc_info(pk[i + 2][0]).mode != rfc::CELT && 2 * fs <= g.Fs * 3 / 25) {
       deferred = true;
-      for (int k = 0; k < fs * g.ch; k++) ol[k] = 0;
-      continue;
+      continue;   // (the region stays NaN-poisoned until the two-packet FEC call of the next iteration fills it)
     }
     if (use_fec) {
       HeapBuf<uint8_t> nd(pk[i + 1].size()); memcpy(nd.p, pk[i + 1].data(), pk[i + 1].size());
@@ -286,6 +288,7 @@ int vp_case(Choice& c, Report& rep) {
         n = opus_decode_float(lossy.p, nd.p, (opus_int32)pk[i + 1].size(), ol - (size_t)fs * g.ch, req, 1);
         (void)ref_opus_decode_float(rlossy.p, nd.p, (opus_int32)pk[i + 1].size(), orf - (size_t)fs * g.ch, req, 1);
         rep.label("fec-larger-than-packet");
+        VP_REQUIRE(all_finite(ol - (size_t)fs * g.ch, (size_t)fs * g.ch), "c09:samples-unwritten", "FEC call with a two-packet frame_size left the first part unwritten / non-finite");
         deferred = false;
       } else
       { n = opus_decode_float(lossy.p, nd.p, (opus_int32)pk[i + 1].size(), ol, req, 1);
